@@ -1,4 +1,5 @@
 import NdonnxVerif.Model.Graph
+import NdonnxVerif.Model.GraphCast
 import NdonnxVerif.Driver.Util
 /-! Driver commands: acceptable graph terms of a function at a dtype, and their evaluation (C02, tie B). -/
 namespace Ndx.Drv
@@ -46,6 +47,15 @@ def cmdGeval (args : List String) : String :=
             if vs.all t.inRange then showSV (eval (vs.map (SV.i (codeOf t))) g) else "bad-op"
           | _, _ => "bad-op"
     | _, _ => "bad-op"
+  | _ => "bad-op"
+
+/-- `gcast <src> <dst>` → accepted renderings of `astype(x : src, dst)` joined by ` || `, `~` outside the fragment. -/
+def cmdGcast (args : List String) : String :=
+  match args with
+  | [s, d] =>
+    match castTerms s d with
+    | [] => "~"
+    | gs => " || ".intercalate (gs.map G.render)
   | _ => "bad-op"
 
 end Ndx.Drv
